@@ -105,7 +105,16 @@ class Exec:
             return self.const_eval(mod, mod.constants[name])
         if name in mod.imports:
             m, a = mod.imports[name]
-            if m == "cutplace" and a: return ModRef(a)
+            if m == "cutplace" and a:
+                import os as _os
+                if _os.path.exists(_os.path.join(S.REPO, "cutplace", a + ".py")): return ModRef(a)
+                try:
+                    import importlib, warnings
+                    with warnings.catch_warnings():
+                        warnings.simplefilter("ignore"); v = getattr(importlib.import_module("cutplace"), a)
+                    if isinstance(v, (str, int)): return v
+                except Exception: pass
+                return Opaque()
             if m and m.startswith("cutplace.") and a: return self.lookup_global(S.module(m.split(".")[1]), a)
             return ModRef(name)       # external module (decimal, time, copy, token ...)
         if name in BUILTIN_EXC: return BuiltinExcClass(name)
@@ -686,6 +695,11 @@ class Exec:
             yield s, ctl
 
     def st_Pass(self, node, st): yield st, ("next",)
+    def st_Break(self, node, st): yield st, ("break",)
+    def st_Continue(self, node, st): yield st, ("continue",)
+    def st_Import(self, node, st): yield st, ("next",)
+    def st_ImportFrom(self, node, st): yield st, ("next",)
+    def st_Global(self, node, st): yield st, ("next",)
     def st_Expr(self, node, st):
         if isinstance(node.value, ast.Constant): yield st, ("next",); return      # docstring
         if isinstance(node.value, ast.Call) and ast.unparse(node.value.func).split(".")[0] in ("_log",) : yield st, ("next",); return
